@@ -8869,8 +8869,12 @@ bool SoPlexBase<R>::_parseSettingsLine(char* line, const int lineNumber)
    }
    else
    {
-      *line = '\0';
-      line++;
+      // do not step over the end of the string
+      if(*line != '\0')
+      {
+         *line = '\0';
+         line++;
+      }
 
       // search for the ':' char in the line
       while(*line == ' ' || *line == '\t' || *line == '\r')
@@ -8912,8 +8916,12 @@ bool SoPlexBase<R>::_parseSettingsLine(char* line, const int lineNumber)
    }
    else
    {
-      *line = '\0';
-      line++;
+      // do not step over the end of the string
+      if(*line != '\0')
+      {
+         *line = '\0';
+         line++;
+      }
 
       // search for the '=' char in the line
       while(*line == ' ' || *line == '\t' || *line == '\r')
@@ -9362,8 +9370,12 @@ bool SoPlexBase<R>::parseSettingsString(char* string)
    }
    else
    {
-      *line = '\0';
-      line++;
+      // do not step over the end of the string
+      if(*line != '\0')
+      {
+         *line = '\0';
+         line++;
+      }
 
       // search for the ':' char in the line
       while(*line == ' ' || *line == '\t' || *line == '\r')
@@ -9403,8 +9415,12 @@ bool SoPlexBase<R>::parseSettingsString(char* string)
    }
    else
    {
-      *line = '\0';
-      line++;
+      // do not step over the end of the string
+      if(*line != '\0')
+      {
+         *line = '\0';
+         line++;
+      }
 
       // search for the '=' char in the line
       while(*line == ' ' || *line == '\t' || *line == '\r')
